@@ -112,6 +112,15 @@ def loop (sel : Ext → Option (H → H)) (exts : List Ext) : Nat → (H → H) 
 def chain (sel : Ext → Option (H → H)) (exts : List Ext) : H → H :=
   loop sel exts exts.length id
 
+/-- the other direction, `for i := 0; i < len(exts); i++` : `loopFwd … xs e` runs the list front to back -/
+def loopFwd (sel : Ext → Option (H → H)) : List Ext → (H → H) → (H → H)
+  | [], e => e
+  | x :: xs, e => loopFwd sel xs (wrapWith sel (some x) e)
+
+/-- the middleware built by a loop of the direction the source has (`Gen.PipelineSteps.foldBackwards`) -/
+def chainDir (backwards : Bool) (sel : Ext → Option (H → H)) (exts : List Ext) : H → H :=
+  if backwards then chain sel exts else loopFwd sel exts id
+
 /-- Spec: plain nesting, the first-registered extension outermost. -/
 def nest (sel : Ext → Option (H → H)) : List Ext → H → H
   | [], next => next
